@@ -62,15 +62,22 @@ func r041as(c *an.Ctx, rule string) {
 			continue
 		}
 		name := "(*pkg/resource." + t[0] + ")." + t[1]
-		sends := map[ssa.Instruction]bool{}
-		viaHelper := map[ssa.Instruction]bool{}
-		for _, vc := range an.CallsToDeep(fn, busSend) {
-			if vc.Must {
-				sends[vc.Site] = true
-				viaHelper[vc.Site] = vc.Via != nil
+		// the publication itself, wherever it is written: in the function, or in a helper it delegates to (the path
+		// search runs through such helpers and keeps their constant results apart: `if removed { return ok }`)
+		isSend := func(in ssa.Instruction) bool { return an.IsCallTo(in, busSend) }
+		nSends := 0
+		an.Instrs(fn, func(in ssa.Instruction) {
+			if isSend(in) {
+				nSends++
 			}
+		})
+		for _, h := range an.TransparentCalleesOf(fn, 2) {
+			an.Instrs(h, func(in ssa.Instruction) {
+				if isSend(in) {
+					nSends++
+				}
+			})
 		}
-		isSend := func(in ssa.Instruction) bool { return sends[in] }
 		okSucc, okFail, okOnce := true, true, true
 		var bad ssa.Instruction
 		for _, r := range an.Returns(fn) {
@@ -84,6 +91,7 @@ func r041as(c *an.Ctx, rule string) {
 			if provablyNilAt(errOp, r) {
 				mayBeNil = true
 			}
+			isR := func(in ssa.Instruction) bool { return in == ssa.Instruction(r) }
 			// Delete(allow missing) returns (nil, nil) without an event: the write did nothing
 			if mayBeNil {
 				allNil := true
@@ -96,46 +104,41 @@ func r041as(c *an.Ctx, rule string) {
 					continue
 				}
 				// every path to this return passes a Send
-				tgt, _ := an.PathQuery{Target: func(in ssa.Instruction) bool { return in == ssa.Instruction(r) }, Avoid: isSend}.From(fn, nil)
+				tgt, _ := an.PathQuery{Target: isR, Avoid: isSend}.From(fn, nil)
 				if tgt != nil && provablyNilAt(errOp, r) {
 					okSucc = false
 					bad = r
 				}
 			} else {
-				// definitely an error: must not be reachable from a Send, except the allow-listed timeout
-				for s := range sends {
-					if an.Reaches(s, r) {
-						allowed := false
-						for _, e := range an.GuardingEdges(r) {
-							if call, ok := e.If.Cond.(*ssa.Call); ok && an.CalleeName(call) == "errors.Is" && e.Branch {
-								allowed = true
-							}
-						}
-						if sendTimeoutError(fn, r) {
+				// definitely an error: must not lie on a path that has published, except the allow-listed timeout
+				if tgt, _ := (an.PathQuery{Target: isR, Through: isSend}).From(fn, nil); tgt != nil {
+					allowed := false
+					for _, e := range an.GuardingEdges(r) {
+						if call, ok := e.If.Cond.(*ssa.Call); ok && an.CalleeName(call) == "errors.Is" && e.Branch {
 							allowed = true
 						}
-						if !allowed {
-							okFail = false
-							bad = r
-						}
+					}
+					if sendTimeoutError(fn, r) {
+						allowed = true
+					}
+					if !allowed {
+						okFail = false
+						bad = r
 					}
 				}
 			}
 		}
-		for s := range sends {
-			for s2 := range sends {
-				if an.Reaches(s, s2) && !(t[1] == "Delete" && s == s2) {
-					okOnce = false
-					bad = s2
-				}
-			}
+		// no path publishes twice
+		if tgt, _ := (an.PathQuery{Target: func(in ssa.Instruction) bool { _, isRet := in.(*ssa.Return); return isRet && in.Parent() == fn }, Through: isSend, Need: 2}).From(fn, nil); tgt != nil {
+			okOnce = false
+			bad = tgt
 		}
 		pos := fn.Pos()
 		if bad != nil {
 			pos = bad.Pos()
 		}
 		c.Check(okSucc, rule, name+"|every successful return publishes", pos, "", "a successful return is reachable without passing Bus.Send: the write is committed but no event is emitted")
-		c.Check(okFail && okOnce, rule, name+"|exactly one event, none on failure", pos, fmt.Sprintf("%d publish site(s)", len(sends)), fmt.Sprintf("a second event can be sent for one write (%v) or an error is returned after publishing (%v)", !okOnce, !okFail))
+		c.Check(okFail && okOnce, rule, name+"|exactly one event, none on failure", pos, fmt.Sprintf("%d publish site(s)", nSends), fmt.Sprintf("a second event can be sent for one write (%v) or an error is returned after publishing (%v)", !okOnce, !okFail))
 	}
 }
 
